@@ -2,22 +2,28 @@ const FOUR_OVER_PI_K: f64 = 4_f64 / std::f64::consts::PI;
 const SQRT6_K: f64 = 2.44948974278317809819_f64;
 const PI_OVER_FOUR_K: f64 = 0.25_f64 * std::f64::consts::PI;
 
-fn k_c17_proj() {
+/// region: 0 = north cap (lat > T), 1 = equatorial, 2 = south cap; neg: sign bit of the longitude
+fn region_lat(region: u8, lat: f64) -> bool { match region { 0 => lat > C_T, 1 => lat >= -C_T && lat <= C_T, _ => lat < -C_T } }
+
+fn k_c17_proj(region: u8, neg: bool) {
   let lon: f64 = kani::any();
   let lat: f64 = kani::any();
   kani::assume(lon >= -25.2 && lon <= 25.2 && lat >= -C_HALF_PI && lat <= C_HALF_PI);
-  kani::cover!(lat > C_T && lon < -7.0, "north cap, negative second turn");
-  kani::cover!(lat == -C_HALF_PI, "south pole");
+  kani::assume(region_lat(region, lat) && (lon.to_bits() >> 63 == 1) == neg);
+  kani::cover!(lon > 7.0 || lon < -7.0, "second turn");
+  kani::cover!(lat == -C_HALF_PI || lat == C_HALF_PI || lat == 0.0, "pole or equator");
   p_c17_proj_range(lon, lat);
 }
 
 /// agreement with the reference formulae, from the same libm values. In the polar caps the comparison involves a second copy
 /// of the product (x - centre) * t; two symbolic 53x53-bit multipliers are an equivalence-checking problem SAT does not
 /// solve, so the polar clause is decided for cosines with at most 10 significant bits (every longitude, every facet).
-fn k_c17_proj_ref() {
+fn k_c17_proj_ref(region: u8, neg: bool) {
   let lon: f64 = kani::any();
   let lat: f64 = kani::any();
   kani::assume(lon >= -25.2 && lon <= 25.2 && lat >= -C_HALF_PI && lat <= C_HALF_PI);
+  kani::assume(region_lat(region, lat) && (lon.to_bits() >> 63 == 1) == neg);
+  kani::cover!(lon > 7.0 || lon < -7.0, "second turn");
   let (x, y) = hp::proj(lon, lat);
   let xa = f64::from_bits(lon.to_bits() & 0x7FFF_FFFF_FFFF_FFFF) * FOUR_OVER_PI_K;
   let x8 = xa - 8.0 * ((xa / 8.0) as u64 as f64);
@@ -40,8 +46,9 @@ fn k_c17_proj_ref() {
     let mut dx = ax - xr;
     if dx > 4.0 { dx -= 8.0; }
     if dx < -4.0 { dx += 8.0; }
-    let narrow = (c.to_bits() & ((1u64 << 43) - 1)) == 0;
-    kani::cover!(narrow && xm2 != 0.0 && lat < 0.0, "polar clause reached (south)");
+    let narrow = (c.to_bits() & ((1u64 << 47) - 1)) == 0;     // cosines with <= 6 significant bits
+    kani::cover!(narrow && xm2 != 0.0, "polar product clause reached");
+    assert!((y - yr) <= tol && (y - yr) >= -tol, "C17: proj y differs from the reference formulae (polar cap)");
     if xm2 != 0.0 && narrow {
       assert!(dx <= tol && dx >= -tol && (y - yr) <= tol && (y - yr) >= -tol, "C17: proj differs from the reference formulae (polar cap)");
     }
@@ -57,13 +64,16 @@ fn k_c17_unproj() {
   p_c17_unproj_range(x, y);
 }
 
-fn k_c17_base_cell() {
+/// row: 0 = y > 1, 1 = 0 <= y <= 1, 2 = -1 <= y < 0, 3 = y < -1; quarter q: x (made positive) in [2q, 2q+2)
+fn k_c17_base_cell(row: u8, q: u8) {
   let x: f64 = kani::any();
   let y: f64 = kani::any();
   kani::assume(x >= -8.0 && x < 8.0 && y >= -2.0 && y <= 2.0);
-  kani::cover!(y == 2.0, "north pole");
-  kani::cover!(y == 0.0 && x == 1.0, "corner shared by 4 base cells");
+  kani::assume(match row { 0 => y > 1.0, 1 => y >= 0.0 && y <= 1.0, 2 => y < 0.0 && y >= -1.0, _ => y < -1.0 });
+  let xa = if x < 0.0 { x + 8.0 } else { x };
+  kani::assume(xa >= 2.0 * q as f64 && xa < 2.0 * q as f64 + 2.0);
   kani::cover!(x < 0.0, "negative x");
+  kani::cover!(xa == 2.0 * q as f64 + 1.0, "facet centre line");
   p_c17_base_cell(x, y);
 }
 
